@@ -950,7 +950,8 @@ class XsdGroup(XsdComponent, MutableSequence[ModelParticleType],
         """
         for xsd_element in self.elements:
             if xsd_element.is_matching(name, group=self):
-                return xsd_element
+                # the declaration of a substitute, not that of its head
+                return xsd_element.match(name, group=self) or xsd_element
         return None
 
     def raw_decode(self, obj: ElementType, validation: str, context: ValidationContext) \
